@@ -463,8 +463,9 @@ func (c *collection) create(
 		return err
 	}
 
-	// check if doc already exists
-	exists, isDeleted, err := c.exists(ctx, primaryKey)
+	// check if doc already exists. A document that the requester may not read exists all the
+	// same, creating it again must not write over it.
+	exists, isDeleted, err := c.existsInStore(ctx, primaryKey)
 	if err != nil {
 		return err
 	}
@@ -1016,6 +1017,15 @@ func (c *collection) exists(
 		return false, false, nil
 	}
 
+	return c.existsInStore(ctx, primaryKey)
+}
+
+// existsInStore checks if a document with the given primary key is stored, whether or not
+// the requester may read it.
+func (c *collection) existsInStore(
+	ctx context.Context,
+	primaryKey keys.PrimaryDataStoreKey,
+) (exists bool, isDeleted bool, err error) {
 	txn := datastore.CtxMustGetTxn(ctx)
 	val, err := txn.Datastore().Get(ctx, primaryKey.Bytes())
 	if err != nil && errors.Is(err, corekv.ErrNotFound) {
